@@ -34,12 +34,21 @@
     Hypotheses the run needs beyond the model's invariant: the stage-5
     hypotheses [geom_ok], [geom_ok2], [counters_ok] of the per-function ties.
     They are not assumed along the run: [rinv] (reachable in the model, hint
-    inside the storage, 8*size+8 < 2^31 so that the int32 counter cannot wrap)
-    implies them ([rinv_hyps]) and is preserved by every step ([rinv_step]). *)
+    inside the storage, 8*size+8 < 2^31 so that the int32 counter cannot wrap,
+    the allocator covers its storage) implies them ([rinv_hyps]) and is
+    preserved by every step ([rinv_step]).
+
+    NOT covered on this side: [OGrow] (bts.Grow under the live allocator).
+    [gen_step] has no Grow - the storage of the stage-5 heap representation is
+    one fixed array [A] that the generated methods index; Grow of inmem.go
+    allocates another array - and [op_ok (OGrow _)] is [False]: every theorem
+    of this file is about Grow-free histories ([Forall op_ok ops]).  Histories
+    with Grow are covered by the hand-written model (proofs/C17_Blocks.v,
+    proofs/C17_Grow.v) and the correspondence run. *)
 From Coq Require Import List ZArith NArith Lia Bool FMapPositive.
 From Coq Require Import ZifyBool ZifyN.
 From GL Require Import lib.GoLite model.Blocks spec.AllocSet proofs.C17_Bytes proofs.C17_Geometry
-  proofs.C17_Count proofs.C17_Inv proofs.C17_Blocks.
+  proofs.C17_Count proofs.C17_Inv proofs.C17_Grow proofs.C17_Blocks.
 From GLGEN Require Import BL_GenVocab Gen_blocks C17_GenFn_gbis C17_GenFn C17_GenFn_block C17_GenFn_alloc C17_GenFn_init.
 Import ListNotations.
 Open Scope Z_scope.
@@ -115,6 +124,7 @@ Definition gen_step (g : Gen.Blocks) (o : op) (h : heap) : Gen.Blocks * out * he
   | OAvail => (g, OutN (glue_Available g), h)
   | OCount => (g, OutN (glue_Count g), h)
   | OSegments => (g, OutN (glue_Segments g), h)
+  | OGrow _ => (g, OutOfFuel, h)   (* no Grow on this side: excluded by [op_ok] *)
   end.
 
 Fixpoint gen_run (g : Gen.Blocks) (ops : list op) (h : heap) : list out * Gen.Blocks * heap :=
@@ -130,13 +140,18 @@ Definition op_ok (o : op) : Prop :=
   match o with
   | OFree i | OBlock i | OWrite i _ => int_ok i
   | OPoke i k _ => int_ok i /\ int_ok k
+  | OGrow _ => False   (* histories over the generated code are Grow-free *)
   | _ => True
   end.
+
+Lemma op_ok_no_grow : forall o, op_ok o -> is_grow o = false.
+Proof. intros o H. destruct o; try reflexivity. destruct H. Qed.
 
 (** * The invariant of the run and the stage-5 hypotheses *)
 
 Definition rinv (b : blocks) : Prop :=
-  reachable page fit b /\ freeIdx b <= bsize (bts b) /\ 8 * bsize (bts b) + 8 < 2147483648.
+  reachable page fit b /\ freeIdx b <= bsize (bts b) /\ 8 * bsize (bts b) + 8 < 2147483648 /\
+  tight fit b.
 
 Lemma rinv_facts : forall b, rinv b ->
   let bs := blkSize b in
@@ -146,7 +161,7 @@ Lemma rinv_facts : forall b, rinv b ->
   segments b <= bsize (bts b) /\ (8 * bs + 1) * bs <= bsize (bts b) /\
   0 <= segments b * (8 * bs + 1) <= bsize (bts b).
 Proof.
-  intros b (R & Hf & Hs) bs. pose proof (reachable_inv _ _ _ R) as I.
+  intros b (R & Hf & Hs & HT) bs. pose proof (reachable_inv _ _ _ R) as I.
   pose proof (inv_bs_pos _ _ _ I) as Hbs. fold bs in Hbs.
   pose proof (inv_segs _ _ _ I) as Hsg. pose proof (inv_segs_fit _ _ _ I) as Hfit. fold bs in Hfit.
   unfold ssz in Hfit.
@@ -165,7 +180,7 @@ Qed.
 Lemma rinv_hyps : forall b, rinv b -> geom_ok b /\ geom_ok2 b /\ counters_ok b.
 Proof.
   intros b RI. pose proof (rinv_facts b RI) as (F1 & F2 & F3 & F4 & F5 & F6 & F7 & F8 & F9 & F10).
-  destruct RI as (R & Hf & Hs). pose proof (reachable_inv _ _ _ R) as I.
+  destruct RI as (R & Hf & Hs & HT). pose proof (reachable_inv _ _ _ R) as I.
   set (bs := blkSize b) in *.
   assert (E1 : segments b * (blksInSegm b + 1) = segments b * (8 * bs + 1)) by (rewrite F2; reflexivity).
   assert (E2 : (blksInSegm b + 1) * blkSize b = (8 * bs + 1) * bs) by (rewrite F2; reflexivity).
@@ -197,11 +212,11 @@ Proof.
   - injection H as <-. left. split; [exact Hge|reflexivity].
 Qed.
 
-Lemma step_bsize : forall b o, inv page fit b ->
+Lemma step_bsize : forall b o, inv page fit b -> is_grow o = false ->
   bsize (bts (fst (step page fit b o))) = bsize (bts b).
 Proof.
-  intros b o I. pose proof (inv_bs_pos _ _ _ I) as Hbs.
-  destruct o as [|idx|idx|idx v|idx k v| | | |]; cbn [step]; try reflexivity.
+  intros b o I Hng. pose proof (inv_bs_pos _ _ _ I) as Hbs.
+  destruct o as [|idx|idx|idx v|idx k v| | | | |n]; cbn [step is_grow] in *; try reflexivity; try discriminate.
   - destruct (arrange_spec _ _ _ I) as [(s1 & p1 & j & _ & _ & _ & _ & _ & E)|(f' & _ & _ & _ & E)];
       cbv zeta in E; rewrite E; cbn [fst arranged with_free bts]; [apply bsize_bset|reflexivity].
   - rewrite (free_spec _ _ _ idx I).
@@ -211,16 +226,16 @@ Proof.
   - unfold poke_block. destruct (block b idx); try reflexivity.
     destruct ((k <? 0) || (len <=? k)); [reflexivity|]. cbn [fst bts]. apply bsize_bset.
   - pose proof (ssz_pos _ Hbs) as Hss. pose proof (inv_segs _ _ _ I) as Hsegs.
-    assert (Hsz : ssz (blkSize b) <= bsize (bts b)) by (pose proof (inv_segs_fit _ _ _ I); nia).
-    rewrite (new_blocks_ok page (blkSize b) (bts b) fit (inv_page _ _ _ I) (inv_bs _ _ _ I) Hsz (inv_fit _ _ _ I)).
-    reflexivity.
+    assert (Hnn : 0 <= bsize (bts b)) by (pose proof (inv_segs_fit _ _ _ I); nia).
+    destruct (new_blocks page (blkSize b) (bts b) fit) as [b'|e|] eqn:E; cbn [fst]; try reflexivity.
+    destruct (new_blocks_inv _ _ _ _ _ (inv_page _ _ _ I) Hnn E) as (-> & _). reflexivity.
 Qed.
 
 Lemma step_hint_le : forall b o, inv page fit b -> freeIdx b <= bsize (bts b) ->
   freeIdx (fst (step page fit b o)) <= bsize (bts b).
 Proof.
   intros b o I Hf. pose proof (inv_bs_pos _ _ _ I) as Hbs. pose proof (inv_segs_fit _ _ _ I) as Hfit.
-  destruct o as [|idx|idx|idx v|idx k v| | | |]; cbn [step]; try exact Hf.
+  destruct o as [|idx|idx|idx v|idx k v| | | | |n]; cbn [step]; try exact Hf.
   - destruct (arrange_spec _ _ _ I) as [(s1 & p1 & j & Hs1 & Hp1 & _ & _ & _ & E)|(f' & _ & _ & _ & E)];
       cbv zeta in E; rewrite E; cbn [fst arranged with_free freeIdx].
     + destruct (hdr_in_buffer _ _ _ s1 p1 Hbs Hfit Hs1 Hp1) as (_ & H & _). lia.
@@ -236,17 +251,19 @@ Proof.
   - unfold poke_block. destruct (block b idx); try exact Hf.
     destruct ((k <? 0) || (len <=? k)); exact Hf.
   - pose proof (ssz_pos _ Hbs) as Hss. pose proof (inv_segs _ _ _ I) as Hsegs.
-    assert (Hsz : ssz (blkSize b) <= bsize (bts b)) by nia.
-    rewrite (new_blocks_ok page (blkSize b) (bts b) fit (inv_page _ _ _ I) (inv_bs _ _ _ I) Hsz (inv_fit _ _ _ I)).
-    cbn [fst opened freeIdx]. lia.
+    assert (Hnn : 0 <= bsize (bts b)) by nia.
+    destruct (new_blocks page (blkSize b) (bts b) fit) as [b'|e|] eqn:E; cbn [fst]; try exact Hf.
+    destruct (new_blocks_inv _ _ _ _ _ (inv_page _ _ _ I) Hnn E) as (-> & _). cbn [opened freeIdx]. lia.
+  - destruct (n <? bsize (bts b)); exact Hf.
 Qed.
 
 (* the invariant of the run is preserved by every operation of the model *)
-Theorem rinv_step : forall b o, rinv b -> rinv (fst (step page fit b o)).
+Theorem rinv_step : forall b o, rinv b -> op_ok o -> rinv (fst (step page fit b o)).
 Proof.
-  intros b o (R & Hf & Hs). pose proof (reachable_inv _ _ _ R) as I.
-  split; [exact (reachable_step page fit b o R)|]. rewrite (step_bsize b o I).
-  split; [exact (step_hint_le b o I Hf)|exact Hs].
+  intros b o (R & Hf & Hs & HT) Hok. pose proof (reachable_inv _ _ _ R) as I.
+  pose proof (op_ok_no_grow o Hok) as Hng.
+  split; [exact (reachable_step page fit b o R)|]. rewrite (step_bsize b o I Hng).
+  split; [exact (step_hint_le b o I Hf)|]. split; [exact Hs|exact (step_tight page fit b o I HT Hng)].
 Qed.
 
 (** * The glue against the model's user writes *)
@@ -312,8 +329,8 @@ Proof.
   intros h g b o Hpg R RI Hok.
   destruct (rinv_hyps b RI) as (G & G2 & C).
   pose proof (rinv_facts b RI) as (F1 & F2 & F3 & F4 & F5 & F6 & F7 & F8 & F9 & F10). cbv zeta in *.
-  pose proof RI as (HR & Hfl & Hsm). pose proof (reachable_inv _ _ _ HR) as I.
-  destruct o as [|idx|idx|idx v|idx k v| | | |]; cbn [gen_step step op_ok] in *.
+  pose proof RI as (HR & Hfl & Hsm & HT). pose proof (reachable_inv _ _ _ HR) as I.
+  destruct o as [|idx|idx|idx v|idx k v| | | | |n]; cbn [gen_step step op_ok] in *.
   - (* ArrangeBlock *)
     pose proof (gen_ArrangeBlock_refines_hb A hd h g b R G G2 C) as T.
     destruct (arrange_exhausted_iff_full page fit b HR) as (Hout & _).
@@ -381,6 +398,8 @@ Proof.
   - (* Segments *)
     exists g, h. split; [|exact R]. destruct R as (E1 & E2 & E3 & E4 & E5 & E6 & B).
     unfold glue_Segments. rewrite E3. reflexivity.
+  - (* Grow: not on this side *)
+    destruct Hok.
 Qed.
 
 Theorem gen_run_refines : forall ops h g b, page < 9223372036854775808 ->
@@ -392,7 +411,7 @@ Proof.
   - exists g, h. split; [reflexivity|]. split; [exact R|exact RI].
   - inversion Hok as [|? ? Ho Ht]; subst. cbn [gen_run run].
     destruct (gen_step_refines h g b o Hpg R RI Ho) as (g' & h' & E & R'). rewrite E.
-    pose proof (rinv_step b o RI) as RI'.
+    pose proof (rinv_step b o RI Ho) as RI'.
     destruct (step page fit b o) as [b1 x]. cbn [fst snd] in *.
     destruct (IH h' g' b1 Hpg R' RI' Ht) as (gf & hf & E2 & Rf & RIf). rewrite E2.
     destruct (run page fit b1 t) as [xs bf]. cbn [fst snd map] in *. exists gf, hf.
@@ -414,7 +433,8 @@ Proof.
     rewrite E in Hnew; [|discriminate]. injection Hnew as <-.
   destruct Hv as (Hbs & _). unfold ssz in Hs.
   split; [|split; [exact Hbs|lia]].
-  split; [exact (reachable_new page bs buf fit _ Hp Hsz E)|]. unfold opened. cbn [freeIdx bts]. lia.
+  split; [exact (reachable_new page bs buf fit _ Hp Hsz E)|].
+  split; [unfold opened; cbn [freeIdx bts]; lia|]. split; [exact Hsm|]. apply opened_tight. exact Hf.
 Qed.
 
 (** For every page size, block size, storage (array [A] of the heap, [brel])
@@ -434,9 +454,9 @@ Theorem gen_blocks_refine_allocset : forall A hd page bs fit h buf b0 ops,
   exists g, Gen.NewBlocks page (hb_Size A) (hb_Buffer A) bs hd fit h = Ok ((g, ENil), h) /\
     grel hd A h g b0 /\
     exists gf hf,
-      gen_run page fit A hd g ops h = (map forget_err (fst (sp_run (abs b0) ops)), gf, hf) /\
+      gen_run page fit A hd g ops h = (map forget_err (fst (sp_run fit (abs b0) ops)), gf, hf) /\
       grel hd A hf gf (snd (run page fit b0 ops)) /\
-      abs (snd (run page fit b0 ops)) = snd (sp_run (abs b0) ops).
+      abs (snd (run page fit b0 ops)) = snd (sp_run fit (abs b0) ops).
 Proof.
   intros A hd page bs fit h buf b0 ops Hp B Hsm Hnew Hok.
   pose proof B as (_ & _ & Hsz & _).
@@ -489,16 +509,15 @@ Theorem gen_blocks_refine_allocset_gen : forall A hd page bs fit h buf ops,
     (e = Err -> ~ valid_bs page bs \/ bsize buf < ssz bs \/ (fit = true /\ bsize buf mod ssz bs <> 0)) /\
     (e = ENil ->
        valid_bs page bs /\ ssz bs <= bsize buf /\ (fit = true -> bsize buf mod ssz bs = 0) /\
-       let segs := bsize buf / ssz bs in
        fst (fst (gen_run page fit A hd g ops h)) =
-       map forget_err (fst (sp_run (mkSpec bs segs (alloc_of_bytes bs segs buf)) ops))).
+       map forget_err (fst (sp_run fit (spec_of_bytes bs buf) ops))).
 Proof.
   intros A hd page bs fit h buf ops Hp Hb B Hsm Hok. pose proof B as (_ & _ & Hsz & _).
   pose proof (gen_NewBlocks_decision A hd page bs fit h buf Hp Hb B Hsm) as D.
   destruct (new_blocks_spec page bs buf fit ltac:(lia) ltac:(lia)) as [(Hv & Hss & Hf & E)|(Hbad & E)];
     rewrite E in D.
   - destruct D as (g & Eg & R). exists g, ENil. split; [exact Eg|]. split; [discriminate|]. intros _.
-    split; [exact Hv|]. split; [exact Hss|]. split; [exact Hf|]. cbv zeta.
+    split; [exact Hv|]. split; [exact Hss|]. split; [exact Hf|].
     destruct (gen_blocks_refine_allocset A hd page bs fit h buf _ ops Hp B Hsm E Hok)
       as (g2 & Eg2 & _ & gf & hf & Er & _).
     rewrite Eg in Eg2. injection Eg2 as <-. rewrite Er. reflexivity.
@@ -548,9 +567,8 @@ Theorem gen_blocks_refine_allocset_heap : forall A hd page bs fit h ops,
     (e = Err -> ~ valid_bs page bs \/ size < ssz bs \/ (fit = true /\ size mod ssz bs <> 0)) /\
     (e = ENil ->
        valid_bs page bs /\ ssz bs <= size /\ (fit = true -> size mod ssz bs = 0) /\
-       let segs := size / ssz bs in
        fst (fst (gen_run page fit A hd g ops h)) =
-       map forget_err (fst (sp_run (mkSpec bs segs (alloc_of_bytes bs segs buf)) ops))).
+       map forget_err (fst (sp_run fit (spec_of_bytes bs buf) ops))).
 Proof.
   intros A hd page bs fit h ops Hp Hb Ha Hby Hsm Hok size buf.
   pose proof (brel_of_list A h Ha Hby ltac:(lia)) as B.
@@ -603,7 +621,7 @@ Proof.
   destruct (gen_arrange_fresh_hb A hd page fit h g b g' i h' HR R G G2 C E)
     as (b' & Ea & R' & F1 & F2 & F3 & F4 & F5).
   exists b'. split; [exact Ea|]. split; [exact R'|]. split.
-  { pose proof (rinv_step page fit b OArrange RI) as H. cbn [step] in H. rewrite Ea in H. exact H. }
+  { pose proof (rinv_step page fit b OArrange RI I) as H. cbn [step] in H. rewrite Ea in H. exact H. }
   split; [exact F1|]. split; [exact F2|]. split; [exact F3|]. split; [exact F4|].
   destruct R as (_ & _ & _ & _ & E5 & _). destruct R' as (_ & _ & _ & _ & E5' & _). lia.
 Qed.
@@ -626,7 +644,7 @@ Lemma step_keeps_held : forall b o i, reachable page fit b -> In i (alloc_list b
 Proof.
   intros b o i HR Hin Hne. pose proof (reachable_inv _ _ _ HR) as I.
   destruct (step_refines page fit b o I) as (_ & Hs).
-  destruct o as [|idx|idx|idx v|idx k v| | | |].
+  destruct o as [|idx|idx|idx v|idx k v| | | | |n].
   - (* ArrangeBlock: model-level freshness *)
     clear Hs. cbn [step]. destruct (arrange b) as [b' r] eqn:Ea. cbn [fst snd].
     destruct r as [i'|e| |]; try (split; [discriminate|]).
@@ -656,11 +674,16 @@ Proof.
     destruct (sp_valid (abs b) idx); [destruct ((k <? 0) || (sp_bs (abs b) <=? k))|];
       split_hs Hs; (split; [discriminate|exact Hin]).
   - destruct (step page fit b OReopen) as [b' x]. cbn [fst snd] in *.
+    change (alloc_list b') with (sp_alloc (abs b')). cbn [sp_step] in Hs. unfold sp_reopen in Hs.
+    destruct (fit && negb (sp_size (abs b) mod sp_ssz (abs b) =? 0)); split_hs Hs;
+      (split; [discriminate|]); [exact Hin|].
+    cbn [sp_alloc]. apply in_or_app. left. exact Hin.
+  - cbn [step fst snd]. split; [discriminate|exact Hin].
+  - cbn [step fst snd]. split; [discriminate|exact Hin].
+  - cbn [step fst snd]. split; [discriminate|exact Hin].
+  - destruct (step page fit b (OGrow n)) as [b' x]. cbn [fst snd] in *.
     change (alloc_list b') with (sp_alloc (abs b')). cbn [sp_step] in Hs.
-    split_hs Hs. split; [discriminate|exact Hin].
-  - cbn [step fst snd]. split; [discriminate|exact Hin].
-  - cbn [step fst snd]. split; [discriminate|exact Hin].
-  - cbn [step fst snd]. split; [discriminate|exact Hin].
+    destruct (n <? sp_size (abs b)); split_hs Hs; (split; [discriminate|exact Hin]).
 Qed.
 
 Lemma run_keeps_held : forall ops b i, reachable page fit b -> In i (alloc_list b) ->
@@ -689,7 +712,7 @@ Proof.
   intros h g b g1 i h1 ops Hpg R RI E Hok Hno.
   destruct (gen_step_refines page fit A hd h g b OArrange Hpg R RI I) as (g' & h' & E' & R').
   rewrite E in E'. injection E' as <- Hx <-.
-  pose proof (rinv_step page fit b OArrange RI) as RI'. pose proof RI as (HR & _).
+  pose proof (rinv_step page fit b OArrange RI I) as RI'. pose proof RI as (HR & _).
   cbn [step] in *. destruct (arrange b) as [b' r] eqn:Ea. cbn [fst snd] in *.
   destruct r as [i'|e| |]; cbn [forget_err] in Hx; try discriminate. injection Hx as ->.
   destruct (arrange_fresh page fit b b' i' HR Ea) as (_ & _ & _ & F4 & _).
@@ -757,10 +780,10 @@ Theorem gen_reopen_same : forall h g b, 0 < page < 9223372036854775808 ->
     Gen.Blocks_segments g' = Gen.Blocks_segments g /\ Gen.Blocks_available g' = Gen.Blocks_available g /\
     Gen.Blocks_freeIdx g' = 0 /\ alloc_list b' = alloc_list b /\ bts b' = bts b.
 Proof.
-  intros h g b Hp R RI. pose proof RI as (HR & _ & Hsm). pose proof (reachable_inv _ _ _ HR) as Iv.
+  intros h g b Hp R RI. pose proof RI as (HR & _ & Hsm & HT). pose proof (reachable_inv _ _ _ HR) as Iv.
   pose proof (rinv_facts page fit b RI) as (F1 & F2 & F3 & F4 & F5 & F6 & F7 & F8 & F9 & F10). cbv zeta in *.
-  pose proof (rinv_step page fit b OReopen RI) as RI'.
-  destruct (reopen_same page fit b HR) as (b0 & En & _ & Hal & Hav & _ & Hsg & Hbs & Hbt & _).
+  pose proof (rinv_step page fit b OReopen RI I) as RI'.
+  destruct (reopen_same page fit b HR HT) as (b0 & En & _ & Hal & Hav & _ & Hsg & Hbs & Hbt & _).
   cbn [step] in RI'. rewrite En in RI'. cbn [fst] in RI'.
   pose proof R as (E1 & E2 & E3 & E4 & E5 & E6 & B). rewrite E1.
   pose proof (gen_NewBlocks_refines_hb A hd page (blkSize b) fit h (bts b) B Hp ltac:(lia)
@@ -811,7 +834,7 @@ Example gen_ex_blocks_hyps :
   Forall op_ok gen_ex_ops /\
   match new_blocks 4096 1 (zero_buffer 18) true with
   | CtorOk b0 =>
-      map forget_err (fst (sp_run (abs b0) gen_ex_ops)) =
+      map forget_err (fst (sp_run true (abs b0) gen_ex_ops)) =
       fst (fst (gen_run 4096 true 0 7 (Gen.mk_Blocks 1 8 2 0 7 16) gen_ex_ops [repeat 0 18]))
   | _ => False
   end.
